@@ -128,6 +128,12 @@ def gen_spec(rng, idx, for_sim):
     usable = good + (["pfree"] if len(params) > len(good) and rng.random() < 0.3 else [])
     variables = []
     nS = rng.choice([2, 3, 3, 4]) if for_sim else rng.choice([1, 1, 2])
+    # ensemble member 1 gets parameter values of its own (start values are resolved per member)
+    code1 = {}
+    if not for_sim and rng.random() < 0.5:
+        for p in rng.sample(params, rng.randint(1, len(params))):
+            code1[p["name"]] = rng.choice([v for v in PVALS if v != p["value"]])
+    ens_pars = [n for n in code1 if n in good]
 
     def real_attrs(kind):
         a = {}
@@ -149,6 +155,10 @@ def gen_spec(rng, idx, for_sim):
     for i in range(nS):
         a = real_attrs("state")
         fixed = rng.choice([True, True, False, None])
+        if ens_pars and i == 0 and rng.random() < 0.7:
+            # a start value that differs between the ensemble members
+            a["start"] = ("sym", rng.choice([1.0, 2.0, -1.0, 0.5]), rng.choice(ens_pars), float(rng.choice([0, 1, -2])))
+            fixed = rng.choice([True, True, False])
         variables.append({"name": "x%d" % i, "kind": "state", "mtype": "Real", "attrs": a, "fixed": fixed, "output": False})
     # algebraics
     variables.append({"name": "w0", "kind": "alg", "mtype": "Real", "attrs": real_attrs("alg"),
@@ -222,13 +232,14 @@ def gen_spec(rng, idx, for_sim):
         recs.append({"prefix": prefix, "type": v["mtype"], "name": v["name"], "attrs": attrs})
     rng.shuffle(eqs)
     # overriding sources
-    src = {"file": {}, "code": {}, "deleted": []}
+    src = {"file": {}, "code": {}, "code1": {}, "deleted": []}
     if not for_sim and rng.random() < 0.45:
         for p in rng.sample(params, rng.randint(1, len(params))):
             src["file"][p["name"]] = rng.choice(PVALS)
     if rng.random() < 0.5:
         for p in rng.sample(params, rng.randint(1, len(params))):
             src["code"][p["name"]] = rng.choice(PVALS)
+    src["code1"] = code1
     if not for_sim and rng.random() < 0.08 and good:
         src["deleted"] = [rng.choice(good)]
     inherited = {}
@@ -350,6 +361,7 @@ def build_opt(spec, folder, with_file):
 
     inherited = spec["inherited"]
     code, deleted = spec["src"]["code"], spec["src"]["deleted"]
+    code1 = spec["src"].get("code1", {})
 
     class Base(OptimizationProblem):
         def bounds(self):
@@ -363,10 +375,16 @@ def build_opt(spec, folder, with_file):
             p = super().parameters(ensemble_member)
             for k, v in code.items():
                 p[k] = v
+            if ensemble_member == 1:
+                for k, v in code1.items():
+                    p[k] = v
             for k in deleted:
                 if k in p:
                     del p[k]
             return p
+
+        if code1:
+            ensemble_size = property(lambda self: 2)
 
     mixins = [Code]
     if with_file:
@@ -385,8 +403,60 @@ def build_opt(spec, folder, with_file):
     return p, store[0]
 
 
+def member_oracle(c, case, spec, decl, obs, declared_vars, byname, times, t0):
+    """the member-dependent clauses: parameters(m), history(m), seed(m)"""
+    # parameters: model < file < code
+    if obs["parameters"][0] != "ok":
+        c.fail("parameters() raised: " + obs["parameters"][1], case)
+    else:
+        for k, v in decl.params.items():
+            if k in spec["src"]["deleted"]:
+                continue
+            src = "code" if k in spec["src"]["code"] else ("file" if k in spec["src"]["file"] else "model")
+            c.count(("opt", "parameter", src, math.isnan(v)))
+            c.hit("param/" + src)
+            g = obs["parameters"][1].get(k, None)
+            if g is None or not (g == v or (math.isnan(g) and math.isnan(v))):
+                c.fail("parameter %r: expected the %s value %r, got %r" % (k, src, v, g), case)
+    # history / seed
+    exp_h = {v["name"]: decl.history(v) for v in declared_vars}
+    h_raise = any(x == "raise" for x in exp_h.values())
+    if h_raise != (obs["history"][0] == "raise"):
+        c.fail("history(): raise behaviour differs from the resolvability of the fixed start values", case,
+               {"expected": exp_h, "got": obs["history"]})
+    elif not h_raise:
+        for n, e in exp_h.items():
+            g = obs["history"][1].get(n)
+            a = byname[n]["attrs"]["start"]
+            c.count(("opt", "history", e is None, byname[n]["kind"], "abs" if a is None else a[0], byname[n]["fixed"]))
+            c.hit("history/" + ("none" if e is None else "fixed-start"))
+            if e is None:
+                if g is not None:
+                    c.fail("history has an entry for %r, which has no fixed start" % n, case, g)
+            elif g is None or g[0] != [t0] or len(g[1]) != 1 or not close(g[1][0], e):
+                c.fail("fixed start of %r is not the history value at t0" % n, case, {"expected": e, "got": g})
+    if obs["seed"][0] != "ok":
+        c.fail("seed() raised: " + obs["seed"][1], case)
+    else:
+        for v in declared_vars:
+            e = decl.seed(v)
+            g = obs["seed"][1].get(v["name"])
+            a = v["attrs"]["start"]
+            c.count(("opt", "seed", e is None, v["kind"], v["mtype"], "abs" if a is None else a[0], bool(v["fixed"]),
+                     None if e is None else (e > 0) - (e < 0)))
+            c.hit("seed/" + ("none" if e is None else "start"))
+            if e is None:
+                if g is not None:
+                    c.fail("seed has an entry for %r (fixed, zero or unresolvable start)" % v["name"], case, g)
+            elif g is None or g[0] != times or not all(close(x, e) for x in g[1]):
+                c.fail("non-fixed non-zero start of %r is not seeded over its times" % v["name"], case,
+                       {"expected": e, "got": g})
+
+
 def check_opt(c, spec, folder, lines, pending):
     with_file = bool(spec["src"]["file"]) or c.rng.random() < 0.2
+    if with_file:
+        spec["src"]["code1"] = {}  # the CSV data store of the generated input folder has one member only
     write_inputs(folder, spec)
     case = {"stream": "opt", "model": spec["text"], "sources": spec["src"], "inherited_bounds": spec["inherited"],
             "with_csv": with_file, "lookup_tables": spec["lookup"]}
@@ -434,19 +504,6 @@ def check_opt(c, spec, folder, lines, pending):
     c.count(("opt", "outputs", len(exp_out)))
     if sorted(obs["outputs"]) != sorted(exp_out):
         c.fail("output_variables are not the declared outputs plus the controls", case, {"expected": exp_out, "got": obs["outputs"]})
-    # parameters: model < file < code
-    if obs["parameters"][0] != "ok":
-        c.fail("parameters() raised: " + obs["parameters"][1], case)
-    else:
-        for k, v in decl.params.items():
-            if k in spec["src"]["deleted"]:
-                continue
-            src = "code" if k in spec["src"]["code"] else ("file" if k in spec["src"]["file"] else "model")
-            c.count(("opt", "parameter", src, math.isnan(v)))
-            c.hit("param/" + src)
-            g = obs["parameters"][1].get(k, None)
-            if g is None or not (g == v or (math.isnan(g) and math.isnan(v))):
-                c.fail("parameter %r: expected the %s value %r, got %r" % (k, src, v, g), case)
     declared_vars = [v for v in spec["variables"] if v["kind"] in ("state", "alg", "input")]
     # bounds
     exp_b = {v["name"]: decl.bounds(v) for v in declared_vars}
@@ -486,39 +543,19 @@ def check_opt(c, spec, folder, lines, pending):
         c.count(("opt", "discrete", v["mtype"], v["kind"]))
         if obs["discrete"][v["name"]] != e:
             c.fail("variable_is_discrete(%r) = %r for a %s variable" % (v["name"], obs["discrete"][v["name"]], v["mtype"]), case)
-    # history / seed
-    exp_h = {v["name"]: decl.history(v) for v in declared_vars}
-    h_raise = any(x == "raise" for x in exp_h.values())
-    if h_raise != (obs["history"][0] == "raise"):
-        c.fail("history(): raise behaviour differs from the resolvability of the fixed start values", case,
-               {"expected": exp_h, "got": obs["history"]})
-    elif not h_raise:
-        for n, e in exp_h.items():
-            g = obs["history"][1].get(n)
-            a = byname[n]["attrs"]["start"]
-            c.count(("opt", "history", e is None, byname[n]["kind"], "abs" if a is None else a[0], byname[n]["fixed"]))
-            c.hit("history/" + ("none" if e is None else "fixed-start"))
-            if e is None:
-                if g is not None:
-                    c.fail("history has an entry for %r, which has no fixed start" % n, case, g)
-            elif g is None or g[0] != [t0] or len(g[1]) != 1 or not close(g[1][0], e):
-                c.fail("fixed start of %r is not the history value at t0" % n, case, {"expected": e, "got": g})
-    if obs["seed"][0] != "ok":
-        c.fail("seed() raised: " + obs["seed"][1], case)
-    else:
-        for v in declared_vars:
-            e = decl.seed(v)
-            g = obs["seed"][1].get(v["name"])
-            a = v["attrs"]["start"]
-            c.count(("opt", "seed", e is None, v["kind"], v["mtype"], "abs" if a is None else a[0], bool(v["fixed"]),
-                     None if e is None else (e > 0) - (e < 0)))
-            c.hit("seed/" + ("none" if e is None else "start"))
-            if e is None:
-                if g is not None:
-                    c.fail("seed has an entry for %r (fixed, zero or unresolvable start)" % v["name"], case, g)
-            elif g is None or g[0] != times or not all(close(x, e) for x in g[1]):
-                c.fail("non-fixed non-zero start of %r is not seeded over its times" % v["name"], case,
-                       {"expected": e, "got": g})
+    member_oracle(c, case, spec, decl, obs, declared_vars, byname, times, t0)
+    # a second ensemble member with its own parameter values (start values are resolved per member)
+    spec1 = None
+    if spec["src"].get("code1"):
+        spec1 = dict(spec, src=dict(spec["src"], code=dict(spec["src"]["code"], **spec["src"]["code1"])))
+        case1 = dict(case, ensemble_member=1, sources=spec1["src"])
+        obs1 = {
+            "history": call(lambda: {k: (list(map(float, v.times)), list(map(float, v.values))) for k, v in p.history(1).items()}),
+            "seed": call(lambda: {k: (list(map(float, v.times)), list(map(float, v.values))) for k, v in p.seed(1).items()}),
+            "parameters": call(lambda: {k: float(v) for k, v in p.parameters(1).items()}),
+        }
+        c.hit("ensemble/member1")
+        member_oracle(c, case1, spec1, Declared(spec1), obs1, declared_vars, byname, times, t0)
     # ------------------------------------------------------------------ model line (pymoca records)
     params = [v.symbol for v in m.parameters]
     try:
@@ -540,12 +577,19 @@ def check_opt(c, spec, folder, lines, pending):
         return
     lines.append(line)
     pending.append(("opt", case, obs, names, times, t0))
+    if spec1 is not None:
+        line1 = dict(line, params=dict(line["params"], code=[[k, pval_wire(v)] for k, v in spec1["src"]["code"].items()]))
+        lines.append(line1)
+        pending.append(("opt1", case1, obs1, names, times, t0))
     c.sample({"stream": "opt", "model": spec["text"], "sources": spec["src"], "inherited_bounds": spec["inherited"]}, limit=3)
 
 
-def compare_opt(c, mo, case, obs, names, times, t0):
+def compare_opt(c, mo, case, obs, names, times, t0, member_only=False):
     def d(k):
         return {row[0]: row[1] for row in mo[k]}
+
+    if member_only:
+        return compare_member(c, mo, case, obs, times, t0, d)
 
     # roles
     role_of = {}
@@ -574,6 +618,10 @@ def compare_opt(c, mo, case, obs, names, times, t0):
     for n, v in d("discrete").items():
         if obs["discrete"][n] != v:
             c.disagree("discreteness of %r" % n, case, v, obs["discrete"][n])
+    compare_member(c, mo, case, obs, times, t0, d)
+
+
+def compare_member(c, mo, case, obs, times, t0, d):
     mh = d("history")
     if any(v == "raise" for v in mh.values()) != (obs["history"][0] == "raise"):
         c.disagree("history() raise", case, mh, obs["history"])
@@ -765,6 +813,8 @@ def run(c):
                 c.disagree("model driver rejected a case", pend[1], mo, None)
             elif pend[0] == "opt":
                 compare_opt(c, mo, *pend[1:])
+            elif pend[0] == "opt1":
+                compare_opt(c, mo, *pend[1:], member_only=True)
             else:
                 compare_sim(c, mo, *pend[1:])
     # F5
